@@ -914,7 +914,7 @@ fn main() {
         sum.finish(&args);
     }
     let mut rng = Rng::new(args.seed);
-    let (n_track, n_raw, n_uni, n_store) = if args.thorough { (6000, 1500, 600, 500) } else { (600, 150, 60, 14) };
+    let (n_track, n_raw, n_uni, n_store) = if args.thorough { (4000, 1000, 400, 220) } else { (600, 150, 60, 14) };
     let mut cases = corpus();
     for _ in 0..n_track { cases.push(gen_track_case(&mut rng, args.thorough)); }
     for _ in 0..n_raw { cases.push(gen_raw_case(&mut rng)); }
